@@ -41,7 +41,11 @@ PPL::Grid::Grid(const Grid& y, Complexity_Class)
     status(y.status),
     space_dim(y.space_dim),
     dim_kinds(y.dim_kinds) {
-  if (space_dim == 0) {
+  if (y.marked_empty()) {
+    // As in operator=(): install the canonical empty representation.
+    set_empty();
+  }
+  else if (space_dim == 0) {
     con_sys = y.con_sys;
     gen_sys = y.gen_sys;
   }
